@@ -2,7 +2,7 @@ SPECIFICATION Spec
 CONSTANTS
   MaxBlocks = 3
   MaxReqs = 2
-  Templates = {"o23", "ret", "jmp", "d3"}
+  Templates = {"o23", "ret", "d3"}
   PatchKinds = {"plain2", "ret", "loop"}
   FnLayouts = {"none", "one", "split", "tail"}
   EndSyms = {FALSE}
@@ -19,7 +19,7 @@ CONSTANTS
   ExtraData = {FALSE}
   Retargets = {FALSE}
   AlignOpts = {0}
-  InsFns = {"none", "ret", "callret"}
+  InsFns = {"none", "callret"}
   Emit = TRUE
 INVARIANT Inv
 CHECK_DEADLOCK FALSE
